@@ -1,6 +1,7 @@
 // Driver for C10 (the file store is durable across restart).
 //
 //	hist <cap> <pool> <ops>   => res= cks= same= fin= vis= retries=
+//	conc <cap> <pool> <n> <k> <trials> => init= t0= t1= …   (k overlapping FIRST reads of a mailbox of n messages after each real restart)
 //
 // ops is a history over four mailboxes with reopen points: `R` builds a fresh file.New on the same
 // path inside the process, `X` is a REAL restart: the history is cut into segments at every X and
@@ -18,6 +19,7 @@ import (
 	"strings"
 	"time"
 
+	"github.com/inbucket/inbucket/v3/pkg/storage"
 	"github.com/inbucket/inbucket/v3/pkg/verifhook"
 	"verifharness/cmd/c11/fsd"
 	"verifharness/vh"
@@ -98,6 +100,147 @@ func segmentMain() {
 	b, _ := json.Marshal(out)
 	w.Write(b)
 	w.Flush()
+}
+
+// ---- concurrent first reads after a restart ---------------------------------------------------
+
+type concOut struct {
+	Readers []string // one compact listing per reader, or PANIC:<msg>
+	Mut     string
+	Tab     [][]string
+}
+
+// concSegment is one incarnation of the server: a fresh process, a fresh store object, and the FIRST
+// accesses to mailbox mb are k readers released together from a barrier (GetMessages / GetMessage by
+// id and "latest" / VisitMailboxes); then one mutation through the same store object.
+func concSegment(dir string, cap int, tab [][]string, mb, k int, mut string) concOut {
+	s := fsd.Open(dir, cap, tab)
+	name := fsd.Pool()[mb].Name
+	out := concOut{Readers: make([]string, k)}
+	start := make(chan struct{})
+	done := make(chan struct{}, k)
+	for r := 0; r < k; r++ {
+		go func(r int) {
+			defer func() {
+				if x := recover(); x != nil {
+					out.Readers[r] = "PANIC:" + vh.HS(fmt.Sprint(x))
+				}
+				done <- struct{}{}
+			}()
+			<-start
+			switch r % 3 {
+			case 0:
+				ms, err := s.Store.GetMessages(name)
+				if err != nil {
+					out.Readers[r] = "ERR"
+					return
+				}
+				out.Readers[r] = fsd.Short(s.Msgs(mb, ms))
+			case 1:
+				if len(s.Tab[mb]) > 0 {
+					s.Store.GetMessage(name, "latest")
+					s.Store.GetMessage(name, s.Tab[mb][len(s.Tab[mb])/2])
+				}
+				ms, err := s.Store.GetMessages(name)
+				if err != nil {
+					out.Readers[r] = "ERR"
+					return
+				}
+				out.Readers[r] = fsd.Short(s.Msgs(mb, ms))
+			default:
+				got := "-"
+				err := s.Store.VisitMailboxes(func(ms []storage.Message) bool {
+					if len(ms) > 0 && ms[0].Mailbox() == name {
+						got = s.Msgs(mb, ms)
+					}
+					return true
+				})
+				if err != nil {
+					out.Readers[r] = "ERR"
+					return
+				}
+				out.Readers[r] = fsd.Short(got)
+			}
+		}(r)
+	}
+	close(start)
+	for r := 0; r < k; r++ {
+		<-done
+	}
+	func() {
+		defer func() {
+			if x := recover(); x != nil {
+				out.Mut = "PANIC:" + vh.HS(fmt.Sprint(x))
+			}
+		}()
+		out.Mut = s.Do(fsd.ParseOp(mut))
+	}()
+	out.Tab = s.Tab
+	return out
+}
+
+func concSegmentMain() {
+	// concseg <dir> <cap> <tabfile> <mb> <k> <mutation>
+	dir, cap, tabf := os.Args[2], vh.AtoI(os.Args[3]), os.Args[4]
+	var tab [][]string
+	if b, err := os.ReadFile(tabf); err == nil {
+		_ = json.Unmarshal(b, &tab)
+	}
+	out := concSegment(dir, cap, tab, vh.AtoI(os.Args[5]), vh.AtoI(os.Args[6]), os.Args[7])
+	b, _ := json.Marshal(out)
+	os.Stdout.Write(b)
+}
+
+// ConcAdd is the j-th delivery of a `conc` case (the model runner builds the same).
+func concAdd(mb, j int) string {
+	return fmt.Sprintf("a.%d.c%d.%d.%s.1", mb, j, 1600000000+j, vh.HS(fmt.Sprintf("c%d\r\n", j)))
+}
+
+func shortState(dir string, cap int, tab [][]string) string {
+	f := fsd.Open(dir, cap, fsd.CopyTab(tab))
+	var xs []string
+	for i := range fsd.Pool() {
+		xs = append(xs, fsd.Short(f.Listing(i)))
+	}
+	return strings.Join(xs, "|")
+}
+
+// concCase: a mailbox of n messages (and a small second one), then `trials` incarnations, each a REAL
+// process whose first accesses to the mailbox are k overlapping reads, followed by one mutation; after
+// each incarnation a fresh store reads the whole state.
+func concCase(cap, n, k, trials int) []string {
+	dir := fsd.Scratch("c10c")
+	defer os.RemoveAll(dir)
+	s := fsd.Open(dir, cap, nil)
+	for j := 0; j < n; j++ {
+		s.Do(fsd.ParseOp(concAdd(0, j)))
+	}
+	for j := 0; j < 3; j++ {
+		s.Do(fsd.ParseOp(concAdd(3, j)))
+	}
+	tab := s.Tab
+	out := []string{"init=" + shortState(dir, cap, tab)}
+	for t := 0; t < trials; t++ {
+		mut := fmt.Sprintf("s.0.%d", t)
+		if t%2 == 1 {
+			mut = concAdd(0, n+t)
+		}
+		tabf := dir + ".tab.json"
+		b, _ := json.Marshal(tab)
+		_ = os.WriteFile(tabf, b, 0o600)
+		cmd := osexec.Command(os.Args[0], "concseg", dir, vh.I(cap), tabf, "0", vh.I(k), mut)
+		cmd.Stderr = os.Stderr
+		ob, err := cmd.Output()
+		_ = os.Remove(tabf)
+		var co concOut
+		if err != nil || json.Unmarshal(ob, &co) != nil {
+			out = append(out, fmt.Sprintf("t%d=PROCESS-DIED", t))
+			continue
+		}
+		tab = co.Tab
+		out = append(out, fmt.Sprintf("t%d=%s/%s/%s", t, strings.Join(co.Readers, ","), co.Mut, shortState(dir, cap, tab)))
+	}
+	return out
 }
 
 type histOut struct {
@@ -194,6 +337,8 @@ func exec(kind string, in []string) []string {
 		}
 		return []string{"res=" + jn(h.res, ","), "cks=" + jn(h.cks, "^"), "same=" + jn(h.same, ","), "fin=" + h.fin,
 			"live=" + h.live, fmt.Sprintf("retries=%d", h.retries), "reissued=" + jn(h.reissued, ",")}
+	case "conc":
+		return concCase(cap, vh.AtoI(in[2]), vh.AtoI(in[3]), vh.AtoI(in[4]))
 	case "reissue":
 		// deliver, remove, REAL restart, deliver — both processes within one wall-clock second (the id
 		// is second + counter, the counter restarts at 0000): retried when the second rolled over
@@ -221,6 +366,10 @@ func exec(kind string, in []string) []string {
 func main() {
 	if len(os.Args) > 1 && os.Args[1] == "segment" {
 		segmentMain()
+		return
+	}
+	if len(os.Args) > 1 && os.Args[1] == "concseg" {
+		concSegmentMain()
 		return
 	}
 	vh.Main(gen, exec)
